@@ -303,7 +303,7 @@ static TripleCheck run_triple_variant(World &W, double cut, int tv, BeadList &l1
 
 // ------------------------------------------------------------------ configurations
 struct Config { Box box; double cut; bool cellfamily = false; };  // cellfamily: the 27 boxes that only vary the cells per direction
-static std::vector<Config> configs_pair(bool thorough) {
+static std::vector<Config> configs_pair_v1(bool thorough) {
   std::vector<Config> c;
   auto ortho = [](double x, double y, double z) { Box b; b.ax = x; b.by = y; b.cz = z; return b; };
   // cubic L=3: 2 cells (cutoff just below L/2), 3 cells exactly one cutoff thick, 3, 4, 7 cells
@@ -326,7 +326,38 @@ static std::vector<Config> configs_pair(bool thorough) {
   }
   return c;
 }
-static std::vector<Config> configs_triple(bool thorough) {
+// triclinic boxes of the deep (thorough) tier: extreme positive / mixed-sign / generic / all-negative tilts and the three single-tilt shapes
+static std::vector<Box> deep_triclinic() {
+  std::vector<Box> tri;
+  auto mk = [](double ax, double by, double cz, double bx, double cx, double cy) { Box b; b.ax = ax; b.by = by; b.cz = cz; b.bx = bx; b.cx = cx; b.cy = cy; return b; };
+  tri.push_back(mk(3, 3, 3, 1.5, 1.5, 1.5));
+  tri.push_back(mk(3, 3, 3, -1.5, 1.5, -1.5));
+  tri.push_back(mk(2.5, 3.5, 4.5, 0.625, -1.25, 0.875));
+  tri.push_back(mk(3, 3, 3, -1.5, -1.5, -1.5));
+  tri.push_back(mk(3, 3.5, 4, 1.5, 0, 0));     // b_x only
+  tri.push_back(mk(3, 3.5, 4, 0, -1.5, 0));    // c_x only, negative
+  tri.push_back(mk(3, 3.5, 4, 0, 0, 1.75));    // c_y only
+  return tri;
+}
+static std::vector<Config> configs_pair(bool thorough) {
+  if (!thorough) return configs_pair_v1(false);
+  std::vector<Config> c;
+  auto ortho = [](double x, double y, double z) { Box b; b.ax = x; b.by = y; b.cz = z; return b; };
+  // cubic L=3: 2,2,3 (exactly one cutoff thick),3,4,5,6,7 cells
+  for (double cut : {1.49, 1.2, 1.0, 0.9, 0.7, 0.55, 0.45, 0.4}) c.push_back({ortho(3, 3, 3), cut});
+  // every combination of 2,3,4 cells per direction (cutoff 1) and of 4,5,7 cells per direction (cutoff 0.62)
+  for (double cut : {1.0, 0.62})
+    for (double x : {2.5, 3.5, 4.5}) for (double y : {2.5, 3.5, 4.5}) for (double z : {2.5, 3.5, 4.5}) c.push_back({ortho(x, y, z), cut, true});
+  c.push_back({ortho(2.5, 3.5, 4.5), 1.2});   // 2,2,3
+  c.push_back({ortho(2.5, 3.5, 4.5), 0.6});   // 4,5,7
+  c.push_back({ortho(2.5, 3.5, 4.5), 0.5});   // 5,7,9
+  for (auto &b : deep_triclinic()) {
+    double h = (double)b.hmin();
+    for (double f : {0.49, 0.33, 0.24, 0.19, 0.14}) c.push_back({b, f * h});   // 2,3,4,5,7 cells along the shortest direction, more along the others
+  }
+  return c;
+}
+static std::vector<Config> configs_triple_v1(bool thorough) {
   std::vector<Config> c;
   auto ortho = [](double x, double y, double z) { Box b; b.ax = x; b.by = y; b.cz = z; return b; };
   c.push_back({ortho(3, 3, 3), 1.49});
@@ -337,15 +368,28 @@ static std::vector<Config> configs_triple(bool thorough) {
   { Box b; b.ax = 2.5; b.by = 3.5; b.cz = 4.5; b.bx = 0.625; b.cx = -1.25; b.cy = 0.875; double h = (double)b.hmin(); c.push_back({b, 0.49 * h}); if (thorough) c.push_back({b, 0.3 * h}); }
   return c;
 }
+static std::vector<Config> configs_triple(bool thorough) {
+  if (!thorough) return configs_triple_v1(false);
+  std::vector<Config> c;
+  auto ortho = [](double x, double y, double z) { Box b; b.ax = x; b.by = y; b.cz = z; return b; };
+  for (double cut : {1.49, 0.9, 0.7, 0.45}) c.push_back({ortho(3, 3, 3), cut});
+  c.push_back({ortho(2.5, 3.5, 4.5), 1.0});
+  c.push_back({ortho(2.5, 3.5, 4.5), 0.62});
+  c.push_back({ortho(2.5, 4.5, 3.5), 1.0}); c.push_back({ortho(3.5, 2.5, 4.5), 1.0}); c.push_back({ortho(3.5, 4.5, 2.5), 1.0});
+  c.push_back({ortho(4.5, 2.5, 3.5), 1.0}); c.push_back({ortho(4.5, 3.5, 2.5), 1.0});
+  auto tri = deep_triclinic();
+  for (int k : {0, 1, 2, 3, 4, 5, 6}) { double h = (double)tri[k].hmin(); c.push_back({tri[k], 0.49 * h}); c.push_back({tri[k], 0.3 * h}); }
+  return c;
+}
 // fractional lattices (per axis)
 static std::vector<double> lat_pair(bool thorough) {
-  if (thorough) return {-1.0, -1.0 / 3, 0.0, 0.25, 1.0 / 3, 0.5, 16.0 / 12};
+  if (thorough) return {-1.0, -1.0 / 3, 0.0, 0.25, 1.0 / 3, 0.5, 10.0 / 12, 16.0 / 12};
   return {-1.0 / 3, 0.0, 0.25, 0.5, 16.0 / 12};
 }
 // "near" enumeration: first bead on this lattice (just below 0 and just below 1 included), second bead = first + a
 // Cartesian displacement (multiples of the cutoff, straddling it), given raw and wrapped into the primary cell
 static std::vector<double> lat_near(bool thorough) {
-  if (thorough) return {-1.0 / 3, -1.0 / 48, 0.0, 0.25, 0.5, 47.0 / 48, 16.0 / 12};
+  if (thorough) return {-6.0 - 1.0 / 48, -1.0 / 3, -1.0 / 48, 0.0, 0.25, 0.5, 47.0 / 48, 16.0 / 12};
   return {-1.0 / 3, -1.0 / 48, 0.0, 0.5, 47.0 / 48};
 }
 static std::vector<double> disp_near(bool thorough) {
@@ -470,7 +514,7 @@ struct Triple3 {
 
 // ------------------------------------------------------------------ part dense: N = 0, 1 and 4x4x4 blocks
 struct DenseCfg { Config cf; int n; int origin; double spacing_frac; };
-static std::vector<D3> dense_origins() { return {{0, 0, 0}, {-0.4, 0.1, -0.05}, {0.9, -1.2, 0.3}, {0.49, 0.49, -2.3}}; }
+static std::vector<D3> dense_origins() { return {{0, 0, 0}, {-0.4, 0.1, -0.05}, {0.9, -1.2, 0.3}, {0.49, 0.49, -2.3}, {-7.3, 11.2, -4.6}}; }
 static void dense_one(const DenseCfg &dc, int only, Batch &out) {
   const Config &cf = dc.cf;
   int n = dc.n;
@@ -544,19 +588,22 @@ static void dense_one(const DenseCfg &dc, int only, Batch &out) {
 struct ExclTopo { int nb; std::vector<int> mol; std::vector<std::vector<int>> ias; };
 static std::vector<ExclTopo> excl_topos(bool thorough) {
   std::vector<ExclTopo> out;
-  for (int nb = 2; nb <= 4; nb++) {
+  for (int nb = 2; nb <= (thorough ? 5 : 4); nb++) {
     // interaction alphabet: all bonds, all angles (as ordered i<j<k, centre irrelevant for exclusions), one dihedral
     std::vector<std::vector<int>> alpha;
     for (int i = 0; i < nb; i++) for (int j = i + 1; j < nb; j++) alpha.push_back({i, j});
     for (int i = 0; i < nb; i++) for (int j = i + 1; j < nb; j++) for (int k = j + 1; k < nb; k++) alpha.push_back({j, i, k});
-    if (nb == 4) alpha.push_back({0, 1, 2, 3});
+    if (nb >= 4) alpha.push_back({0, 1, 2, 3});
+    if (nb == 5) alpha.push_back({1, 2, 3, 4});
     // also bonds written high-id first (ordering of the ids inside an interaction must not matter)
     for (int i = 0; i < nb; i++) for (int j = i + 1; j < nb; j++) alpha.push_back({j, i});
-    int maxia = thorough ? 3 : 2;
-    // all molecule assignments with bead 0 in molecule 0 (relabelling symmetry)
-    for (int mm = 0; mm < (1 << (nb - 1)); mm++) {
+    int maxia = thorough ? (nb == 5 ? 2 : 3) : 2;
+    // all molecule assignments with bead 0 in molecule 0 (relabelling symmetry); quick: 2 molecules, thorough: 3 molecules
+    int nmol = thorough ? 3 : 2, nassign = 1;
+    for (int b = 1; b < nb; b++) nassign *= nmol;
+    for (int mm = 0; mm < nassign; mm++) {
       std::vector<int> mol(nb, 0);
-      for (int b = 1; b < nb; b++) mol[b] = (mm >> (b - 1)) & 1;
+      { int q = mm; for (int b = 1; b < nb; b++) { mol[b] = q % nmol; q /= nmol; } }
       // all interaction subsets of size 0..maxia
       size_t A = alpha.size();
       out.push_back({nb, mol, {}});
@@ -606,7 +653,8 @@ static void excl_one(const ExclTopo &t, int arr, int only, Batch &out) {
   // molecules 0 and 1 (created even if empty so that ids are 0/1)
   Molecule *m0 = W.top.CreateMolecule("M0");
   Molecule *m1 = W.top.CreateMolecule("M1");
-  for (int i = 0; i < t.nb; i++) (t.mol[i] == 0 ? m0 : m1)->AddBead(W.beads[i], "b" + std::to_string(i));
+  Molecule *m2 = W.top.CreateMolecule("M2");
+  for (int i = 0; i < t.nb; i++) (t.mol[i] == 0 ? m0 : t.mol[i] == 1 ? m1 : m2)->AddBead(W.beads[i], "b" + std::to_string(i));
   int idx = 0;
   for (auto &ia : t.ias) {
     Interaction *ic = nullptr;
@@ -619,7 +667,7 @@ static void excl_one(const ExclTopo &t, int arr, int only, Batch &out) {
     W.top.AddBondedInteraction(ic);
   }
   W.top.RebuildExclusions();
-  const double off[4][3] = {{0, 0, 0}, {0.3, 0.1, 0}, {0, 0.35, 0.2}, {0.25, 0.25, 0.3}};
+  const double off[5][3] = {{0, 0, 0}, {0.3, 0.1, 0}, {0, 0.35, 0.2}, {0.25, 0.25, 0.3}, {0.1, 0.3, 0.35}};
   D3 org = arr == 0 ? D3{1.4, 1.6, 1.9} : arr == 1 ? D3{-0.1, 3.4, -4.1} : B.place({0.95, -0.05, 1.0});
   for (int i = 0; i < t.nb; i++) W.setpos(i, {org[0] + off[i][0], org[1] + off[i][1], org[2] + off[i][2]});
   // reference: excluded iff same molecule and some interaction contains both
@@ -724,12 +772,19 @@ int main(int argc, char **argv) {
   bool thorough = a.tier == "thorough";
   // batches (shared by the enumeration and by --case batch;...)
   std::vector<Config> pc = configs_pair(thorough), tc = configs_triple(thorough);
+  const std::vector<D3> lpq = cube(lat_pair(false));
   std::vector<D3> lp = cube(lat_pair(thorough)), ln = cube(lat_near(thorough)), ld = cube(disp_near(thorough)), lt = cube(lat_triple(thorough));
   struct PB { int first, second, kind; };  // (config, index of the first bead's lattice point, 0 = full product / 1 = near enumeration)
   std::vector<PB> pbatch;
   auto build_pbatch = [&]() {
     pbatch.clear();
     for (size_t c = 0; c < pc.size(); c++) {
+      // thorough: configurations with more than 130 grid cells (small cutoffs: almost every lattice pair is far beyond the cutoff and every
+      // Generate is expensive) take the 5-per-axis lattice for the full product; the near enumeration is what probes them
+      auto nc = ref_cells(pc[c].box, pc[c].cut);
+      bool heavy = thorough && (long long)nc[0] * nc[1] * nc[2] > 130;
+      if (heavy) { for (size_t i = 0; i < lpq.size(); i++) pbatch.push_back({(int)c, (int)i, 2}); }
+      else
       for (size_t i = 0; i < lp.size(); i++) pbatch.push_back({(int)c, (int)i, 0});
       for (size_t i = 0; i < ln.size(); i++) pbatch.push_back({(int)c, (int)i, 1});
     }
@@ -737,9 +792,9 @@ int main(int argc, char **argv) {
   build_pbatch();
   std::vector<DenseCfg> dcs;
   {
-    std::vector<Config> base = configs_pair(true);
+    std::vector<Config> base = thorough ? configs_pair(true) : configs_pair_v1(true);
     for (auto &cf : base) {
-      for (int org = 0; org < 4; org++)
+      for (int org = 0; org < (thorough ? 5 : 4); org++)
         for (double sp : {0.45, 0.8}) {
           if ((org % 2 == 0) != (sp == 0.45)) continue;   // origins 0,2 dense spacing; 1,3 wide spacing
           if (!thorough && org >= 2) continue;
@@ -758,7 +813,7 @@ int main(int argc, char **argv) {
     Batch out;
     if (part == "pair2") {
       const Config &cf = pc[pbatch[b].first];
-      const std::vector<D3> &L = lp;
+      const std::vector<D3> &L = pbatch[b].kind == 2 ? lpq : lp;
       Pair2 P; P.W.top.setBox(cf.box.mat());
       if (pbatch[b].kind == 1) {
         D3 r0 = cf.box.place(ln[pbatch[b].second]);
@@ -853,20 +908,23 @@ int main(int argc, char **argv) {
   R.property = "C03"; R.part = part; R.tier = a.tier;
   R.max_samples = 6;
   if (part == "pair2")
-    R.rule = "all placements of 2 beads on a " + std::to_string(lat_pair(thorough).size()) + "-per-axis fractional lattice (" + std::string(thorough ? "-1,-1/3,0,1/4,1/3,1/2,4/3" : "-1/3,0,1/4,1/2,4/3") +
-             " of the box vectors: negative, on faces, on cell boundaries, outside the cell) x " + std::to_string(pc.size()) + " (box,cutoff) configurations (cubic L=3 with 2,3(exactly one cutoff thick),3,4,7 cells; "
-             "orthorhombic edges {2.5,3.5,4.5}^3 at cutoff 1 = every combination of 2,3,4 cells per direction; 3 reduced triclinic boxes incl. extreme tilts at 0.49,0.33,0.24 of the shortest height) x "
-             "{NBList, NBListGrid} x {one list, two lists} (the 27-box cell-count family: grid searchers only); plus the 'near' enumeration: first bead on {-1/3,-1/48,0," + std::string(thorough ? "1/4," : "") + "1/2,47/48" + std::string(thorough ? ",4/3" : "") + "}^3, second bead = first + Cartesian displacement from (cutoff x " + std::string(thorough ? "{-0.9,-0.5,0,0.5,0.9}" : "{-0.9,0,0.5}") + ")^3, given raw and wrapped into the primary cell. Oracle: brute-force minimum image (fractional reduction + 5^3 images, long double); exact set of reported pairs, callback count per pair = 1, stored once, "
+    R.rule = "all placements of 2 beads on a " + std::to_string(lat_pair(thorough).size()) + "-per-axis fractional lattice (" + std::string(thorough ? "-1,-1/3,0,1/4,1/3,1/2,5/6,4/3" : "-1/3,0,1/4,1/2,4/3") +
+             " of the box vectors: negative, on faces, on cell boundaries, outside the cell) x " + std::to_string(pc.size()) + " (box,cutoff) configurations (" + std::string(thorough ?
+             "cubic L=3 with 2,2,3(exactly one cutoff thick),3,4,5,6,7 cells; orthorhombic edges {2.5,3.5,4.5}^3 at cutoff 1 and 0.62 = every combination of 2,3,4 and of 4,5,7 cells per direction; 2.5x3.5x4.5 at 1.2,0.6,0.5 (up to 5x7x9 cells); "
+             "7 reduced triclinic boxes (extreme positive, mixed-sign, all-negative, generic tilts, b_x-only, c_x-only, c_y-only) at 0.49,0.33,0.24,0.19,0.14 of the shortest height" :
+             "cubic L=3 with 2,3(exactly one cutoff thick),3,4,7 cells; orthorhombic edges {2.5,3.5,4.5}^3 at cutoff 1 = every combination of 2,3,4 cells per direction; 3 reduced triclinic boxes incl. extreme tilts at 0.49,0.33,0.24 of the shortest height") + ") x "
+             "{NBList, NBListGrid} x {one list, two lists} (the cell-count families: grid searchers only" + std::string(thorough ? "; configurations with more than 130 cells: 5-per-axis lattice -1/3,0,1/4,1/2,4/3 for the full product" : "") + "); plus the 'near' enumeration: first bead on {" + std::string(thorough ? "-6-1/48," : "") + "-1/3,-1/48,0," + std::string(thorough ? "1/4," : "") + "1/2,47/48" + std::string(thorough ? ",4/3" : "") + "}^3, second bead = first + Cartesian displacement from (cutoff x " + std::string(thorough ? "{-0.9,-0.5,0,0.5,0.9}" : "{-0.9,0,0.5}") + ")^3, given raw and wrapped into the primary cell. Oracle: brute-force minimum image (fractional reduction + 5^3 images, long double); exact set of reported pairs, callback count per pair = 1, stored once, "
              "stored/callback r = min image of pos(second)-pos(first) and dist within 1e-9; |d-cutoff|<=1e-12 may go either way. distinct_nontrivial = distinct (variant, cells per direction, box class, pair + selected image vector)";
   else if (part == "triple3")
     R.rule = "all placements of 3 beads on a " + std::to_string(lat_triple(thorough).size()) + "-per-axis fractional lattice (-0.3,0,0.5" + std::string(thorough ? ",1.2" : "") + ") x " + std::to_string(tc.size()) +
-             " (box,cutoff) configurations x {NBList_3Body, NBListGrid_3Body} x {one type, two types ({0};{1,2}), three types} plus the one-list NBList/NBListGrid pair search on the same 3 beads; plus the 'near' enumeration: centre on the lattice {-1/3,-1/48,0," + std::string(thorough ? "1/4," : "") + "1/2,47/48" + std::string(thorough ? ",4/3" : "") + "}^3, both partners = centre + one of 7 displacements (0.6 cutoff along +-x,+-y,+-z; 0.5 cutoff x (1,1,1)), raw and wrapped into the primary cell. Oracle: a triple (centre,{j,k}) is reported exactly once iff both "
+             " (box,cutoff) configurations x {NBList_3Body, NBListGrid_3Body} x {one type, two types ({0};{1,2}), three types} plus the one-list NBList/NBListGrid pair search on the same 3 beads; plus the 'near' enumeration: centre on the lattice {" + std::string(thorough ? "-6-1/48," : "") + "-1/3,-1/48,0," + std::string(thorough ? "1/4," : "") + "1/2,47/48" + std::string(thorough ? ",4/3" : "") + "}^3, both partners = centre + one of 7 displacements (0.6 cutoff along +-x,+-y,+-z; 0.5 cutoff x (1,1,1)), raw and wrapped into the primary cell. Oracle: a triple (centre,{j,k}) is reported exactly once iff both "
              "centre distances (brute-force minimum image) are below the cutoff; distances within 1e-12 of the cutoff either way. distinct_nontrivial = distinct (variant, cells, box class, set of reported triples/pairs)";
   else if (part == "dense")
-    R.rule = "for each of the " + std::to_string(configs_pair(true).size()) + " (box,cutoff) configurations: bead counts 0,1,2,5 and 4x4x4 blocks of 64 beads (spacing 0.45 or 0.8 cutoff, slightly skewed, " + std::string(thorough ? "4" : "2") + " block origins with negative coordinates in every direction and across faces, every third bead given by its image in the primary cell), "
+    R.rule = "for each of the " + std::to_string((thorough ? configs_pair(true) : configs_pair_v1(true)).size()) + " (box,cutoff) configurations: bead counts 0,1,2,5 and 4x4x4 blocks of 64 beads (spacing 0.45 or 0.8 cutoff, slightly skewed, " + std::string(thorough ? "5" : "2") + " block origins with negative coordinates in every direction and across faces, every third bead given by its image in the primary cell), "
              "types A,B,C by index: 4 pair variants and 6 three-body variants compared as complete sets with the O(N^2)/O(N^3) brute force (multiplicity: every pair delivered once, every triple stored once)";
   else
-    R.rule = "all topologies of 2..4 beads, every assignment of beads to 2 molecules, every set of <= " + std::string(thorough ? "3" : "2") + " bonded interactions over the alphabet {all bonds in both id orders, all angles, one dihedral}; "
+    R.rule = "all topologies of 2.." + std::string(thorough ? "5 beads, every assignment of beads to 3 molecules, every set of <= 3 (5 beads: <= 2)" : "4 beads, every assignment of beads to 2 molecules, every set of <= 2") +
+             " bonded interactions over the alphabet {all bonds in both id orders, all angles, the chain dihedrals}; "
              "3 arrangements (cell centre, across periodic faces far outside the cell, triclinic) with all beads mutually within the cutoff. Oracle: pair excluded iff same molecule and some interaction contains both; "
              "ExclusionList::IsExcluded in both argument orders, and the 4 pair searchers with exclusions on (exactly the non-excluded pairs) and off (all pairs)";
   R.assumptions = {"connection vector of a stored pair (first,second) = minimum image of pos(second)-pos(first) (the convention both searchers implement and csg_fmatch relies on)",
